@@ -506,6 +506,36 @@ def extras(ctx):
             M = fq.calc_smoothing_matrix_konno_1998(fs, sm, band=band)
             viaM = np.asarray(fq.calc_smooth_fa_spectrum_w_custom_matrix(type('O', (), {'fa_spectrum': A})(), M))
             ctx.oracle('C07.c matrix form == direct form (large problem, 1e-12)', bool(viaM.shape == s.shape and np.all(np.abs(viaM - s) <= 1e-12 * A.max())), inputs)
+    # the window depends on frequency RATIOS only: rescaling all frequencies (spectrum grid and targets) by a power of two changes nothing,
+    # bit for bit -- with and without the zero-frequency bin, down to grids whose first frequency is ~1e-12 Hz (slow processes) and up to 1e+12 Hz
+    for it in range(6 if ctx.tier == 'quick' else 40):
+        n_fa = rng.choice([17, 64, 129])
+        zero_bin = it % 2 == 0
+        fs0 = (np.arange(n_fa) if zero_bin else np.arange(1, n_fa + 1)) / (2 * n_fa * 0.01)
+        A = np.abs(np.array([rng.gauss(0, 1) for _ in range(n_fa)])) + 0.01
+        sm0 = np.exp(np.linspace(math.log(0.5), math.log(30.0), 9))
+        for sm_ in (sm0, None):
+            base = call_impl(fq.calc_smooth_fa_spectrum, fs0, A, sm_)
+            M0 = call_impl(fq.calc_smoothing_matrix_konno_1998, fs0, sm_)
+            for k in (-40, 40, -25):
+                sc = 2.0 ** k
+                ctx.hist(f'frequency-scale/2^{k}/' + ('with' if zero_bin else 'without') + ' zero bin')
+                r = call_impl(fq.calc_smooth_fa_spectrum, fs0 * sc, A, None if sm_ is None else sm_ * sc)
+                ok = r[0] == base[0] and (r[0] != 'ok' or (np.shape(r[1]) == np.shape(base[1]) and np.array_equal(np.asarray(r[1]), np.asarray(base[1]))))
+                ctx.oracle('C07 smoothing depends on frequency ratios only: all frequencies x 2^k (grid with or without the zero bin, given or default targets) '
+                           'leaves the smoothed spectrum unchanged (==)', ok,
+                           {'fa_frequencies': fs0, 'fa_spectrum': A, 'smooth_fa_frequencies': sm_, 'scale': f'2**{k}', 'zero_bin': zero_bin},
+                           detail=None if ok else {'base': base[1] if base[0] != 'ok' else np.asarray(base[1])[:4], 'scaled': r[1] if r[0] != 'ok' else np.asarray(r[1])[:4]})
+                Mk = call_impl(fq.calc_smoothing_matrix_konno_1998, fs0 * sc, None if sm_ is None else sm_ * sc)
+                okm = Mk[0] == M0[0] and (Mk[0] != 'ok' or (np.shape(Mk[1]) == np.shape(M0[1]) and np.array_equal(np.asarray(Mk[1]), np.asarray(M0[1]), equal_nan=True)))
+                ctx.oracle('C07 the smoothing matrix depends on frequency ratios only (all frequencies x 2^k, ==)', okm,
+                           {'fa_frequencies': fs0, 'smooth_fa_frequencies': sm_, 'scale': f'2**{k}', 'zero_bin': zero_bin})
+            if M0[0] == 'ok' and base[0] == 'ok':
+                M = np.asarray(M0[1])
+                ctx.oracle('C07.c the matrix form with default targets is finite, normalised and equals the direct form', bool(
+                    np.all(np.isfinite(M)) and M.shape[0] == (n_fa - 1 if zero_bin else n_fa) and np.allclose(M.sum(axis=0), 1.0, rtol=1e-12) and
+                    np.allclose(np.dot(A[1:] if zero_bin else A, M), np.asarray(base[1]), rtol=1e-12, atol=0)),
+                    {'fa_frequencies': fs0, 'fa_spectrum': A, 'smooth_fa_frequencies': sm_, 'zero_bin': zero_bin}, detail={'matrix_shape': M.shape})
     for it in range(4 if ctx.tier == 'quick' else 30):
         n_fa = rng.choice([17, 64, 129])
         fs = np.arange(n_fa) / (2 * n_fa * 0.01)
